@@ -6,6 +6,7 @@ mod c18;
 mod common;
 mod guard;
 mod pd;
+mod solar;
 
 use common::Args;
 
@@ -22,6 +23,13 @@ fn main() {
         "c15" => c15::gen(&args),
         "c17" => c17::gen(&args),
         "c18" => c18::gen(&args),
+        "c01" => solar::gen_c01(&args),
+        "c02" => solar::gen_c02(&args),
+        "c03" => solar::gen_c03(&args),
+        "c04" => solar::gen_c04(&args),
+        "c06" => solar::gen_c06(&args),
+        "c13" => solar::gen_c13(&args),
+        "c20" => solar::gen_c20(&args),
         "c05" => pd::gen_c05(&args),
         "c07" => pd::gen_c07(&args),
         "c08" => pd::gen_c08(&args),
